@@ -16,20 +16,21 @@ ID = 'C15'
 LEVEL = 'model_checking'
 TECHNIQUE = 'exhaustive enumeration of unit pairs and chains as write/read histories on real SED files, against a three-family reference (F = nu F_nu, L = F d^2)'
 LEVEL_TEXT = ('All 25 (stored, requested) unit pairs over {mJy, Jy, erg/cm^2/s, erg/s, W/m^2}, all 125 chains A->B->A and A->B->C executed as real file write/read/write/read '
-              'sequences, on SEDs with 1/2/5 apertures, three distances and frequency grids of 2/3/10 points in either order; every returned value is compared with the '
+              'sequences, on SEDs with 1/2/5 apertures, four distance settings (1 kpc, 140 pc, 3.3e22 cm, header keyword absent = 1 kpc; read one after the other in the same process) and frequency grids of 2/3/10 points in either order; every returned value is compared with the '
               'reference, chains must close to 1e-12, and unsupported target units (K, m, Hz) must be refused.')
 LEVEL_NOTE = ('Flux values from a fixed + seed-derived alphabet; the first file of every chain is written with astropy.io.fits directly (independent of SED.write), intermediate files '
               'by SED.write. Trusts astropy unit conversion factors only within a family (Jy<->mJy, erg/cm2/s<->W/m2).')
 RULE = ("cases: (n_ap, distance, n_wav, spectral order) configurations x stored unit A; executions: for every B: read A as B, write, read back as A, and for every C compare "
         "read(B-file, C) with read(A-file, C); non-trivial = distinct (configuration, A, B) with A != B")
 ASSUMPTIONS = ["positive finite fluxes and frequencies", "distance taken from the file header"]
-REQUIRED_CLASSES = ['pair-different-family', 'chain-ABA', 'chain-ABC', 'unsupported-refused', 'luminosity-with-distance!=1kpc', 'nu-decreasing-in-file', 'multi-aperture']
+REQUIRED_CLASSES = ['distance-keyword-absent', 'pair-different-family', 'chain-ABA', 'chain-ABC', 'unsupported-refused', 'luminosity-with-distance!=1kpc', 'nu-decreasing-in-file', 'multi-aperture']
 TIMEOUT = {'quick': 300, 'thorough': 1800}
 
 UNITS = ['mJy', 'Jy', 'erg / (cm2 s)', 'erg / s', 'W / m2']
 FITS_UNIT = {'mJy': 'mJy', 'Jy': 'Jy', 'erg / (cm2 s)': 'erg s-1 cm-2', 'erg / s': 'erg s-1', 'W / m2': 'W m-2'}
-AXES = {'n_ap': [2, 0, 1, 5], 'dist': ['1kpc', '140pc', '3.3e22cm'], 'n_wav': [3, 2, 10], 'order': ['nu-inc', 'nu-dec']}
-DIST_CM = {'1kpc': pkgwriter.KPC_CM, '140pc': 140 * pkgwriter.KPC_CM / 1000.0, '3.3e22cm': 3.3e22}
+AXES = {'n_ap': [2, 0, 1, 5], 'n_wav': [3, 2, 10], 'order': ['nu-inc', 'nu-dec']}
+DISTS = ['1kpc', '140pc', 'absent', '3.3e22cm', '1kpc']      # visited in this order inside every case (same grid, same units, other distance)
+DIST_CM = {'1kpc': pkgwriter.KPC_CM, '140pc': 140 * pkgwriter.KPC_CM / 1000.0, '3.3e22cm': 3.3e22, 'absent': pkgwriter.KPC_CM}
 
 
 def setup(tier, seed):
@@ -48,7 +49,7 @@ def cases(ctx):
 
 
 def evidence_extra(ctx):
-    return {'bounds': ('deviation bound 1 over' if ctx['tier'] == 'quick' else 'full product of') + ' %s; x 5 stored units x 5 requested x 5 third units' % {k: len(v) for k, v in AXES.items()},
+    return {'bounds': ('deviation bound 1 over' if ctx['tier'] == 'quick' else 'full product of') + ' %s; x distances %s (visited in sequence in one process) x 5 stored units x 5 requested x 5 third units' % ({k: len(v) for k, v in AXES.items()}, DISTS),
             'alphabet_digest': 'seed=%d' % ctx['seed']}
 
 
@@ -59,11 +60,19 @@ def _close(a, b, tol=1e-12):
 
 
 def run_case(ctx, case, rec, d):
+    for di, dist in enumerate(DISTS):
+        _one_distance(ctx, dict(case, dist=dist), rec, os.path.join(d, 'dist%d' % di))
+
+
+def _one_distance(ctx, case, rec, d):
     from astropy import units as u
     from sedfitter.sed import SED
+    os.makedirs(d)
     rng = np.random.default_rng(ctx['seed'] * 13 + case['n_wav'])
     n_ap, n_wav, A = case['n_ap'], case['n_wav'], case['A']
     dist = DIST_CM[case['dist']]
+    if case['dist'] == 'absent':
+        rec.cls('distance-keyword-absent')
     nu = np.array([1e12, 3e12, 2e13, 5e14, 7e11, 9e12, 4e13, 8e13, 2e14, 1e15])[:n_wav]
     nu = np.sort(nu)
     if case['order'] == 'nu-dec':
@@ -76,7 +85,7 @@ def run_case(ctx, case, rec, d):
     ap = None if n_ap == 0 else 100.0 * 10.0 ** np.arange(n_ap)
     if n_ap >= 2:
         rec.cls('multi-aperture')
-    pkgwriter.write_sed_file(d, 'm', wav, base, err, apertures_au=ap, unit=FITS_UNIT[A], distance_cm=dist, filename='a.fits')
+    pkgwriter.write_sed_file(d, 'm', wav, base, err, apertures_au=ap, unit=FITS_UNIT[A], distance_cm=None if case['dist'] == 'absent' else dist, filename='a.fits')
     fa = os.path.join(d, 'seds', 'a.fits')
     order = np.argsort(nu)               # SED.read(order='nu') returns increasing frequency
     nu_inc = nu[order]
@@ -148,5 +157,5 @@ def run_case(ctx, case, rec, d):
         except Exception:
             rec.cls('unsupported-refused')
         rec.ev()
-    if A == 'mJy' and case.get('_deviations', 0) == 0:
+    if A == 'mJy' and case.get('_deviations', 0) == 0 and case['dist'] == '140pc':
         rec.sample({'config': {k: v for k, v in case.items()}, 'nu': nu_inc, 'stored_mJy': base_inc[0], 'read_as_erg/cm2/s': readC_from_A['erg / (cm2 s)'][0], 'read_as_erg/s': readC_from_A['erg / s'][0]})
